@@ -126,6 +126,37 @@ def registry_history(tier, seed):
                         key = "C11:malformed-entry:" + name
                 if key:
                     fails.append({"key": key, "clause": key, "ops": [{"function": name, "shape": shape, "dim_pos": k, "history_entries": nh}]})
+                    continue
+                # the same step once more on its own output (its name is now already in the history), directly and after
+                # another step in between: the log must still only grow at the end
+                if dims[k] not in res.dims or nh == 0:
+                    continue
+                for between in (False, True):
+                    cur = res
+                    try:
+                        with warnings.catch_warnings():
+                            warnings.simplefilter("ignore")
+                            with contextlib.redirect_stdout(io.StringIO()):
+                                if between:
+                                    cur = dnp.left_shift(cur, dims[k], 0)
+                                before = copy.deepcopy(list(cur.proc_attrs))
+                                res2 = fn(cur, dims[k])
+                    except Exception:  # noqa: BLE001
+                        continue
+                    n_eval += 1
+                    if not isinstance(res2, dnp.DNPData):
+                        continue
+                    h2 = list(res2.proc_attrs)
+                    key2 = None
+                    if not _eq(list(cur.proc_attrs), before):
+                        key2 = "C11:input-history-altered:repeated:" + name
+                    elif not _eq(h2[: len(before)], before):
+                        key2 = "C11:prefix-lost:repeated:" + name
+                    elif len(h2) <= len(before):
+                        key2 = "C11:no-new-entry:repeated:" + name
+                    if key2:
+                        fails.append({"key": key2, "clause": key2, "ops": [{"function": name, "shape": shape, "dim_pos": k, "step_between": between}]})
+                        break
     return fails, n_eval, sorted(seen_fn)
 
 
